@@ -217,6 +217,17 @@ class Solver {
              const CFGNode* start_node);
 
   internal::StateMap solved_states_;
+  // States that are currently being solved (they are on the recursion stack),
+  // with their recursion level. Their entry in solved_states_ is only the
+  // provisional "solvable" used to break cycles.
+  std::unordered_map<const internal::State, int,
+                     map_util::hash<internal::State>> in_progress_;
+  // Lowest recursion level of an in-progress state whose provisional value (or
+  // whose mere presence on the stack) the current computation depended on.
+  // Results derived that way are only valid in the current context and must
+  // not be memoized.
+  int context_level_ = kNoContext;
+  static constexpr int kNoContext = 1 << 30;
   std::size_t state_cache_hits_;
   std::size_t state_cache_misses_;
 
